@@ -28,13 +28,15 @@ const prelude = `(set-option :produce-models true)
 ; eolA(a, p, h): first position q in [p,h) with a[q] = LF, else h
 @EOLA@
 ; trimA(a, l, h): strings.TrimSpace of a[l:h) as a string value (uninterpreted)
-(declare-fun trimA ((Array Int Int) Int Int) Str)
+@TRIMA@
 `
 
 // Axioms about the uninterpreted prelude functions, quantified over an array
 // ARR. For proofs ARR is universally quantified; for counterexample search the
 // axioms are specialised to the arrays of the inputs (quantifying over arrays
 // makes z3 give up on satisfiable queries at once).
+type specDecl struct{ proof, cex string }
+
 type arrAxiom struct{ vars, body, pats string }
 
 var arrAxioms = []arrAxiom{
@@ -48,11 +50,17 @@ var arrAxioms = []arrAxiom{
 const eolADecl = "(declare-fun eolA ((Array Int Int) Int Int) Int)"
 const eolARec = "(define-fun-rec eolA ((a (Array Int Int)) (p Int) (h Int)) Int (ite (>= p h) h (ite (= (select a p) 10) p (eolA a (+ p 1) h))))"
 
+const trimADecl = "(declare-fun trimA ((Array Int Int) Int Int) Str)"
+const trimARec = `(define-fun isspB ((c Int)) Bool (or (= c 32) (and (<= 9 c) (<= c 13))))
+(define-fun-rec tsA ((a (Array Int Int)) (l Int) (h Int)) Int (ite (>= l h) h (ite (isspB (select a l)) (tsA a (+ l 1) h) l)))
+(define-fun-rec teA ((a (Array Int Int)) (l Int) (h Int)) Int (ite (>= l h) l (ite (isspB (select a (- h 1))) (teA a l (- h 1)) h)))
+(define-fun trimA ((a (Array Int Int)) (l Int) (h Int)) Str (mk-str a (tsA a l h) (- (teA a (tsA a l h) h) (tsA a l h))))`
+
 func preludeText(cex bool) string {
 	if cex {
-		return strings.Replace(prelude, "@EOLA@", eolARec, 1)
+		return strings.Replace(strings.Replace(prelude, "@EOLA@", eolARec, 1), "@TRIMA@", trimARec, 1)
 	}
-	return strings.Replace(prelude, "@EOLA@", eolADecl, 1)
+	return strings.Replace(strings.Replace(prelude, "@EOLA@", eolADecl, 1), "@TRIMA@", trimADecl, 1)
 }
 
 func preludeAxioms(arrays []string) string {
@@ -138,7 +146,7 @@ type Mod struct {
 	lits      map[string]string // string literal -> array const name
 	litOrd    []string
 	specs     *SpecSet
-	funcsDecl []string // SMT text of spec function declarations, built once
+	funcsDecl []specDecl // SMT text of spec function declarations, built once
 	verified  func(pkgPath string) bool
 	ifaceTags map[string]int
 	extraDecl []string
